@@ -1,5 +1,6 @@
 CONSTANT Level = 2
 SPECIFICATION Spec
 INVARIANT AlignedOK
+INVARIANT WideOK
 INVARIANT Export
 CHECK_DEADLOCK FALSE
